@@ -16,6 +16,11 @@ sys.path.insert(0, os.path.join(VERIF, "gen"))
 import stw_workloads
 
 LEVEL = "model_checking"
+MANIFEST = dict(
+    technique='TLA+ spec Safepoint.tla model-checked by TLC (exclusion, code asserts, deadlock freedom, liveness, refinement to AbstractStw); TLC behaviours replayed step-by-step into the real safepoint.rs/threads.rs via gates + sync shim; event logs of real multi-threaded Dora executables validated against SafepointTrace.tla',
+    text='Exhaustive TLC exploration of the stop-the-world protocol (every interleaving of each atomic on the thread-state byte and each barrier/list critical section for up to 3 threads x 3 operations, 4 x 1) proves exclusion, completion and resumption for the design; both conformance directions bind it to the code: model behaviours are stepped through the real functions with all thread states, the barrier and the runtime state compared after every step, and logs of real executables (both code generators, gc-stress) are accepted as behaviours of the spec with every observed value bound.',
+    note='Trusted: TLC; SC memory (all protocol atomics are SeqCst); the operation inside the closure abstracted to begin/end; harness threads stand in for managed threads in the replay direction; exhaustiveness only for the bounded configurations.',
+    ref='4/C04')
 CONC = os.path.join(SPEC, "conc")
 
 
